@@ -658,8 +658,14 @@ impl SolarMonth {
   pub fn get_days(&self) -> Vec<SolarDay> {
     let y: isize = self.get_year();
     let mut l: Vec<SolarDay> = Vec::new();
-    for i in 1..self.get_day_count() + 1 {
-      l.push(SolarDay::from_ymd(y, self.month, i));
+    // 从1日起逐日推移，而不是按1..天数编号：1582年10月只有21天，但日期是1-4、15-31
+    let n: usize = self.get_day_count();
+    let mut d: SolarDay = SolarDay::from_ymd(y, self.month, 1);
+    for i in 0..n {
+      l.push(d);
+      if i + 1 < n {
+        d = d.next(1);
+      }
     }
     l
   }
